@@ -97,6 +97,13 @@ def numDigits (sd : SD) (w : Win) (n : Nat) : List Nat :=
 def handleIsZero (sd : SD) (w : Win) : Bool :=
   sd.isZero || (windowList sd.len sd.digit { w with lo := 0 } 1).isEmpty
 
+/-- `Spec.occurrences` evaluated on arrays (same definition: every offset i with
+T[i..i+|p|) = p, ascending; the list version drops i elements for every i, which is quadratic) -/
+def occurrencesArr (p T : Array Int) : List Nat :=
+  if p.size > T.size then [] else
+  (List.range (T.size - p.size + 1)).filter fun i =>
+    (List.range p.size).all fun j => T.getD (i + j) 0 == p.getD j 1
+
 /-- occurrences of `pat` in the window, as absolute positions (ascending) -/
 def occIn (sd : SD) (w : Win) (pat : List Int) (prefixLen : Nat) : List Nat :=
   let cells := windowList sd.len sd.digit w prefixLen
@@ -104,7 +111,7 @@ def occIn (sd : SD) (w : Win) (pat : List Int) (prefixLen : Nat) : List Nat :=
   | [] => []
   | (s, _) :: _ =>
     let T := cells.map fun (_, d) => (d : Int)
-    if pat.isEmpty then cells.map (·.1) else (occurrences pat T).map (fun (i : Nat) => i + s)
+    if pat.isEmpty then cells.map (·.1) else (occurrencesArr pat.toArray T.toArray).map (fun (i : Nat) => i + s)
 
 def boolStr (b : Bool) : String := if b then "true" else "false"
 
@@ -402,7 +409,7 @@ def specStmt (v : String) (sd : SD) (st : SSt) (s : Stmt) (res : String) : Strin
       else if res.startsWith "panic" then (fail op res "normal return", st)
       else
         let fin := winFinite sd sh.win
-        let occ := occIn sd sh.win pat (if fin then maxTake else oracleDepth)
+        let occ := occIn sd sh.win pat (if fin then maxTake else (match sd.depth with | some k => k | none => 12000))
         let plen := pat.length
         let endOfMatch := fun (p : Nat) => (p + (if plen = 0 then 1 else plen) : Nat)
         -- for infinite windows only a prefix is known: answers are decidable iff enough matches lie inside it
@@ -542,6 +549,7 @@ def specScriptLine (v desc stmts : String) (raw : String) : String :=
 call must return exactly its sequential result, so every program is checked as a script of its
 own; the consult counter read at the end is checked against the union of what was asked. -/
 def specConcLine (v desc progs : String) (raw : String) : String :=
+  let desc := if desc.startsWith "X" then String.mk (desc.toList.drop 1) else desc
   if raw.startsWith "!!" then s!"FAIL concurrent program did not complete: {raw}"
   else if raw == "na" then "ok"
   else match raw.splitOn " ## " with
